@@ -5,14 +5,17 @@
 package main
 
 import (
+	"errors"
 	"fmt"
 	"io/ioutil"
 	"os"
 	"os/exec"
 	"path/filepath"
+	"runtime"
 	"sort"
 	"strings"
 	"syscall"
+	"time"
 
 	. "vh/lib"
 
@@ -56,10 +59,34 @@ type table interface {
 	flush() Val            // the recorded provider.Flush call: () or ((full saves removes))
 	all() Val              // All()
 	loadRaw() (Val, error) // provider.LoadAll, entries as stored
+	gateOf() *gate
+	flushErr() (Val, error) // Flush without panicking on a provider error
+}
+
+// gate parks a provider.Flush call until released (a blocking provider needs no hook in /repo)
+type gate struct {
+	armed   bool
+	fail    bool
+	parked  chan struct{}
+	release chan struct{}
+}
+
+func (g *gate) pass() error {
+	if g == nil || !g.armed {
+		return nil
+	}
+	g.armed = false
+	close(g.parked)
+	<-g.release
+	if g.fail {
+		return errors.New("injected provider failure")
+	}
+	return nil
 }
 
 type userRec struct {
 	call Val
+	g    *gate
 }
 
 func (p *userRec) LoadAll() ([]*auth.User, error) { return auth.JSON.LoadAll() }
@@ -72,17 +99,38 @@ func (p *userRec) Flush(full, saves, removes []*auth.User) error {
 		rn = append(rn, S(u.Name))
 	}
 	p.call = L(L(encUsers(full), L(sn...), L(rn...)))
+	if err := p.g.pass(); err != nil {
+		return err
+	}
 	return auth.JSON.Flush(full, saves, removes)
 }
 
-type userTable struct{ rec *userRec }
+type userTable struct {
+	rec *userRec
+	g   *gate
+}
+
+func (t *userTable) gateOf() *gate { return t.g }
+func (t *userTable) flushErr() (Val, error) {
+	rec := t.rec
+	rec.call = L()
+	err := auth.Flush()
+	return rec.call, err
+}
 
 func (t *userTable) configure(file string) {
 	if err := auth.JSON.Configure(map[string]interface{}{"file": file}); err != nil {
 		panic(err)
 	}
 }
-func (t *userTable) reset()   { t.rec = &userRec{}; auth.Reset(t.rec) }
+func (t *userTable) reset() {
+	if t.g == nil {
+		t.g = &gate{}
+	}
+	rec := &userRec{g: t.g}
+	t.rec = rec
+	auth.Reset(rec)
+}
 func (t *userTable) all() Val { return encUsers(auth.All()) }
 func (t *userTable) apply(op Val) Val {
 	switch op.At(0).Int() {
@@ -119,6 +167,7 @@ func (t *userTable) loadRaw() (Val, error) {
 
 type routeRec struct {
 	call Val
+	g    *gate
 }
 
 func (p *routeRec) LoadAll() ([]*route.Route, error) { return route.JSON.LoadAll() }
@@ -131,17 +180,38 @@ func (p *routeRec) Flush(full, saves, removes []*route.Route) error {
 		rn = append(rn, S(r.Pattern))
 	}
 	p.call = L(L(encRoutes(full), L(sn...), L(rn...)))
+	if err := p.g.pass(); err != nil {
+		return err
+	}
 	return route.JSON.Flush(full, saves, removes)
 }
 
-type routeTable struct{ rec *routeRec }
+type routeTable struct {
+	rec *routeRec
+	g   *gate
+}
+
+func (t *routeTable) gateOf() *gate { return t.g }
+func (t *routeTable) flushErr() (Val, error) {
+	rec := t.rec
+	rec.call = L()
+	err := route.Flush()
+	return rec.call, err
+}
 
 func (t *routeTable) configure(file string) {
 	if err := route.JSON.Configure(map[string]interface{}{"file": file}); err != nil {
 		panic(err)
 	}
 }
-func (t *routeTable) reset()   { t.rec = &routeRec{}; route.Reset(t.rec) }
+func (t *routeTable) reset() {
+	if t.g == nil {
+		t.g = &gate{}
+	}
+	rec := &routeRec{g: t.g}
+	t.rec = rec
+	route.Reset(rec)
+}
 func (t *routeTable) all() Val { return encRoutes(route.All()) }
 func (t *routeTable) apply(op Val) Val {
 	switch op.At(0).Int() {
@@ -488,6 +558,159 @@ func crash(kind string) func(Val) Val {
 	}
 }
 
+// ---------------------------------------------------------------- schedules with a Flush in flight
+// any op of the histories, on whatever goroutine
+func applyAny(t table, file string, op Val) Val {
+	switch op.At(0).Int() {
+	case 4:
+		call, err := t.flushErr()
+		if err != nil {
+			return L(I(4), L(S("!flusherr")), L())
+		}
+		return L(I(4), call, diskView(t, file))
+	case 5:
+		t.reset()
+		return L(I(5), t.all())
+	default:
+		return t.apply(op)
+	}
+}
+
+//go:noinline
+func c18AsyncOp(t table, file string, op Val, ch chan Val) {
+	ch <- Safely(func(Val) Val { return applyAny(t, file, op) }, op)
+}
+
+// is the goroutine running c18AsyncOp waiting for a lock?
+func asyncBlockedOnLock() bool {
+	buf := make([]byte, 1<<20)
+	n := runtime.Stack(buf, true)
+	for _, g := range strings.Split(string(buf[:n]), "\n\n") {
+		if strings.Contains(g, "main.c18AsyncOp") {
+			hdr := g
+			if i := strings.Index(g, "\n"); i >= 0 {
+				hdr = g[:i]
+			}
+			return strings.Contains(hdr, "Lock") || strings.Contains(hdr, "semacquire")
+		}
+	}
+	return false
+}
+
+func schedule(kind string) func(Val) Val {
+	return func(c Val) Val {
+		if os.Getenv("C18_DEBUG") != "" {
+			defer func() {
+				if r := recover(); r != nil {
+					buf := make([]byte, 1<<16)
+					n := runtime.Stack(buf, false)
+					fmt.Fprintf(os.Stderr, "%v\n%s\n", r, buf[:n])
+					panic(r)
+				}
+			}()
+		}
+		dir := freshDir()
+		defer os.RemoveAll(baseDir)
+		file := filepath.Join(dir, "table.json")
+		t := newTable(kind)
+		t.configure(file)
+		t.reset()
+		g := t.gateOf()
+		inflight := false
+		var flushDone chan error
+		var pending chan Val
+		finish := func() (bool, Val) { // release the parked Flush, wait for it and for the blocked call
+			close(g.release)
+			err := <-flushDone
+			inflight = false
+			res := L()
+			if pending != nil {
+				res = L(<-pending)
+				pending = nil
+			}
+			return err != nil, res
+		}
+		defer func() {
+			if inflight {
+				finish()
+			}
+		}()
+		outs := []Val{}
+		for _, e := range c.List() {
+			switch e.At(0).Int() {
+			case 6:
+				if inflight {
+					outs = append(outs, L(I(9)))
+					continue
+				}
+				g.armed, g.fail = true, !e.At(1).Bool()
+				g.parked, g.release = make(chan struct{}), make(chan struct{})
+				flushDone = make(chan error, 1)
+				go func() { _, err := t.flushErr(); flushDone <- err }()
+				select {
+				case <-g.parked:
+					inflight = true
+					outs = append(outs, L(I(6), I(1)))
+				case <-flushDone:
+					g.armed = false
+					outs = append(outs, L(I(6), I(0)))
+				}
+			case 7:
+				if !inflight {
+					outs = append(outs, L(I(7), I(0), L(applyAny(t, file, e.At(1)))))
+					continue
+				}
+				if pending != nil {
+					outs = append(outs, L(I(9)))
+					continue
+				}
+				ch := make(chan Val, 1)
+				go c18AsyncOp(t, file, e.At(1), ch)
+				deadline := time.Now().Add(3 * time.Second)
+				decided := false
+				for !decided {
+					select {
+					case res := <-ch:
+						outs = append(outs, L(I(7), I(0), L(res)))
+						decided = true
+					default:
+						if asyncBlockedOnLock() || time.Now().After(deadline) {
+							pending = ch
+							outs = append(outs, L(I(7), I(1), L()))
+							decided = true
+						} else {
+							time.Sleep(100 * time.Microsecond)
+						}
+					}
+				}
+			case 8:
+				if !inflight {
+					outs = append(outs, L(I(9)))
+					continue
+				}
+				failed, res := finish()
+				outs = append(outs, L(I(8), Bo(failed), res))
+			default:
+				if inflight {
+					outs = append(outs, L(I(9)))
+					continue
+				}
+				switch e.At(0).Int() {
+				case 4:
+					call := t.flush()
+					outs = append(outs, L(I(4), call, diskView(t, file)))
+				case 5:
+					t.reset()
+					outs = append(outs, L(I(5), t.all()))
+				default:
+					outs = append(outs, t.apply(e))
+				}
+			}
+		}
+		return L(outs...)
+	}
+}
+
 // ---------------------------------------------------------------- several flushes, crashes in between
 var pointNames = []string{"jsonfile:begin", "jsonfile:after-create", "jsonfile:after-write",
 	"jsonfile:after-sync", "jsonfile:after-close", "jsonfile:after-rename"}
@@ -620,6 +843,8 @@ var commands = map[string]func(Val) Val{
 	"C18_routes":   history("r"),
 	"C18_uenc":     encodings("u"),
 	"C18_renc":     encodings("r"),
+	"C18_usched":   schedule("u"),
+	"C18_rsched":   schedule("r"),
 	"C18_uencs":    roundEncodings("u"),
 	"C18_rencs":    roundEncodings("r"),
 	"C18_urecrash": recrash("u"),
